@@ -506,6 +506,22 @@ def rule_overrides(program, ctx, prop=P, rid="C07.overrides"):
                                    "NIP-09 deletion, ephemeral/expiration handling) is skipped", path=cfg.describe_path(path)[-4:], text=f"{ci.node.name}.{name} skips super"))
             else:
                 ctx.ok(rid, fn, f"{ci.node.name}.{name}: super().{name} on every returning path")
+            if name == "pre_save":
+                # DBStorage.pre_save has already deleted the versions the event supersedes when it answers True: an override that turns that into
+                # False afterwards (skip the insert) commits the deletion without the replacement
+                verdicts = set()
+                for s_ in walk_no_nested(fn):
+                    if isinstance(s_, ast.Assign) and isinstance(s_.targets[0], ast.Name) and any(c is x for c in sups for x in ast.walk(s_.value)):
+                        verdicts.add(s_.targets[0].id)
+                for r in [r for r in walk_no_nested(fn) if isinstance(r, ast.Return)]:
+                    v = r.value
+                    direct = v is not None and any(c is x for c in sups for x in ast.walk(v)) and isinstance(strip_await(v), ast.Call)
+                    via = isinstance(v, ast.Name) and v.id in verdicts and len([s_ for s_ in stores_of(fn, v.id)]) == 1
+                    if direct or via:
+                        ctx.ok(rid, r, f"{ci.node.name}.pre_save returns super()'s verdict")
+                    else:
+                        ctx.bad(finding_at(prop, rid, r, f"{ci.node.name}.pre_save returns `{ast.unparse(v)[:40] if v is not None else None}`, a verdict of its own, after super().pre_save has run: "
+                                           "the base implementation deletes the superseded versions before it says True - refusing the insert afterwards leaves the address with no version at all"))
     if not n:
         ctx.floors[rid] = 0
         ctx.info(rid, program.cls("nostr_relay.storage.db:DBStorage").node, "no delegating overrides")
